@@ -144,7 +144,7 @@ def respell(args):
 
 class Case:
     __slots__ = ("args", "stdin", "endless", "rsched", "rintr", "rfail", "wfail", "wshort", "wintr",
-                 "efail", "flushfail", "files", "fifos", "efifos", "watchdog_ms", "use_dir", "wonce", "ronce", "links", "lockfiles")
+                 "efail", "flushfail", "files", "fifos", "efifos", "watchdog_ms", "use_dir", "wonce", "ronce", "links", "lockfiles", "fifohold")
 
     def __init__(self, args=(), stdin=b"", **kw):
         self.args = list(args)
@@ -167,6 +167,7 @@ class Case:
         self.ronce = False       # with rfail: the read error is transient
         self.links = []          # (name, target): symbolic links in the scratch directory
         self.lockfiles = []      # names of files the driver keeps exclusively flock'ed during the run
+        self.fifohold = False    # the writers of `fifos` stay attached and silent until the run is over
         for k, v in kw.items():
             setattr(self, k, v)
 
@@ -213,6 +214,8 @@ class Case:
             L.append("lockfile " + _hx(n))
         for n in self.fifos:
             L.append("fifo " + _hx(n))
+        if self.fifohold:
+            L.append("fifohold")
         for n, p, a, b, cap in self.efifos:
             L.append("efifo %s %s %s %s %d" % (_hx(n), _hx(p), _hx(a), _hx(b), cap))
         if self.watchdog_ms:
@@ -409,6 +412,9 @@ class Driver:
                 import resource
                 cap = DRIVER_MEM_MB * 1024 * 1024
                 resource.setrlimit(resource.RLIMIT_AS, (cap, cap))
+                # few file descriptors: a run that keeps every input file open meets the limit with hundreds, not thousands, of files
+                hard = resource.getrlimit(resource.RLIMIT_NOFILE)[1]
+                resource.setrlimit(resource.RLIMIT_NOFILE, (min(256, hard) if hard != resource.RLIM_INFINITY else 256, hard))
         self.proc = subprocess.Popen(self.cmd or (self.wrapper + [self.path, "serve"]), stdin=subprocess.PIPE,
                                      stdout=subprocess.PIPE, stderr=err, env=env, cwd=self.cwd, preexec_fn=limit)
         if self.stderr_path:
